@@ -24,7 +24,7 @@ from . import e1_threads as E1
 PROP = "C12"
 RUNS = {"quick": 3000, "thorough": 60000}
 WALL_CAP = {"quick": 300.0, "thorough": 3000.0}
-CORPUS = {"quick": (60, 12000), "thorough": (300, 20000)}
+CORPUS = {"quick": (60, 30000), "thorough": (300, 100000)}
 
 ROUTES = ["ctor-str", "ctor-path", "ctor-file", "parse-static", "parse-instance",
           "parse_file-str", "parse_file-path", "parse_file-file"]
@@ -144,7 +144,10 @@ def gen_cell(rseed: int, tier: str) -> Dict[str, Any]:
     pr = E1.PREP["pristine"]
     valid = [d["id"] for d in docs if pr[f"{d['id']}:1"][0] == "db"]
     r = g.random()
-    if r < 0.35:
+    big = [i for i in valid if len(docs[i]["text"]) > 8192]
+    if big and r < 0.04:
+        doc = g.choice(big)
+    elif r < 0.35:
         doc = g.choice([i for i in nonascii if i in set(valid)] or valid)
     elif r < 0.75:
         doc = g.choice(valid)
